@@ -223,3 +223,55 @@ Proof.
     + intros _ _. rewrite N.compare_lt_iff in *. assert (Hxz : (x < z)%N) by lia.
       apply N.compare_lt_iff in Hxz. now rewrite Hxz.
 Qed.
+
+(* ---------------------------------------------------------------- statements for Properties_C03.v *)
+Section Statements.
+  Variables K V : Type.
+  Variable cmp : K -> K -> comparison.
+  Hypothesis TO : total_order cmp.
+
+  Let t0 := t_empty K V.
+
+  Theorem step_refines_total : forall t o, rb_inv K V cmp t ->
+    rb_inv K V cmp (fst (t_step K V cmp t o)) /\
+    abs K V (fst (t_step K V cmp t o)) = fst (spec_step K V cmp (abs K V t) o) /\
+    snd (t_step K V cmp t o) = snd (spec_step K V cmp (abs K V t) o).
+  Proof. destruct TO as (H1 & H2 & H3 & H4). apply step_refines; assumption. Qed.
+
+  Theorem refines_total : forall ops,
+    rb_inv K V cmp (t_run K V cmp ops t0) /\
+    abs K V (t_run K V cmp ops t0) = spec_run K V cmp ops [] /\
+    t_outs K V cmp ops t0 = spec_outs K V cmp ops [] /\
+    ~ In (OCrash V) (t_outs K V cmp ops t0) /\ ~ In (OFuel V) (t_outs K V cmp ops t0).
+  Proof.
+    destruct TO as (H1 & H2 & H3 & H4). intros ops.
+    destruct (run_refines K V cmp H1 H2 H3 H4 ops t0 (rb_inv_empty K V cmp)) as (Hi & Ha & Ho).
+    split; [exact Hi|]. split; [exact Ha|]. split; [exact Ho|]. rewrite Ho. apply spec_outs_total.
+  Qed.
+
+  Theorem observations_total : forall t, rb_inv K V cmp t ->
+    iter_forward K V t = Ok (keys K V (abs K V t)) /\
+    iter_backward K V t = Ok (rev (keys K V (abs K V t))) /\
+    StronglySorted (kgt K cmp) (keys K V (abs K V t)) /\
+    length (keys K V (abs K V t)) = nitems K V t /\
+    (forall k, lookup K V cmp (root K V t) k = a_get K V cmp (abs K V t) k) /\
+    2 ^ height K V (root K V t) <= (nitems K V t + 1) ^ 2.
+  Proof. destruct TO as (H1 & H2 & H3 & H4). apply inv_observations; assumption. Qed.
+
+  (* after ANY history: the observations of the tree are those of the ordered map *)
+  Theorem history_observations_total : forall ops,
+    let t := t_run K V cmp ops t0 in
+    let m := spec_run K V cmp ops [] in
+    nitems K V t = length m /\
+    iter_forward K V t = Ok (keys K V m) /\
+    iter_backward K V t = Ok (rev (keys K V m)) /\
+    StronglySorted (kgt K cmp) (keys K V m) /\
+    (forall k, lookup K V cmp (root K V t) k = a_get K V cmp m k) /\
+    2 ^ height K V (root K V t) <= (length m + 1) ^ 2.
+  Proof.
+    intros ops t m. destruct (refines_total ops) as (Hi & Ha & _).
+    destruct (observations_total _ Hi) as (O1 & O2 & O3 & O4 & O5 & O6).
+    fold t in Ha, O1, O2, O3, O4, O5, O6. fold m in Ha. rewrite Ha in *.
+    unfold keys in O4. rewrite map_length in O4. rewrite <- O4 in O6. auto 10.
+  Qed.
+End Statements.
